@@ -143,7 +143,8 @@ fn worker(args: &[String]) -> i32 {
     let to: u64 = args[4].parse().unwrap_or(0);
     let ctx = Ctx::new();
     // panics inside the code under test are caught and turned into verdicts; keep stderr quiet
-    std::panic::set_hook(Box::new(|_| {}));
+    crate::sched::set_role(crate::sched::Role::S);
+    crate::enginesim::install_panic_hook();
     let stdout = std::io::stdout();
     for run in from..to {
         let seed = rng::mix(base, def.sim_id, run);
@@ -189,7 +190,8 @@ fn exec_plan_cmd(args: &[String]) -> i32 {
             return 2;
         }
     };
-    std::panic::set_hook(Box::new(|_| {}));
+    crate::sched::set_role(crate::sched::Role::S);
+    crate::enginesim::install_panic_hook();
     let res = checks::exec_plan(&plan);
     println!("{}", serde_json::to_string(&res).unwrap_or_default());
     let _ = std::io::stdout().flush();
@@ -515,6 +517,11 @@ fn check(args: &[String]) -> i32 {
     for r in &agg.foreign {
         let v = r.foreign.as_ref().unwrap();
         *foreign_summary.entry(format!("{}:{}", v.property, v.class)).or_insert(0) += 1;
+    }
+    if let Some(h) = agg.foreign.iter().find(|r| r.foreign.as_ref().map_or(false, |v| v.property == "HARNESS")) {
+        let v = h.foreign.as_ref().unwrap();
+        eprintln!("HARNESS ERROR: run {} (seed {}): {} {}", h.run, h.seed, v.class, v.detail);
+        return 2;
     }
     if !foreign_summary.is_empty() {
         eprintln!("note: runs that stopped at a violation of another property (not part of this verdict): {:?}", foreign_summary);
